@@ -7,7 +7,8 @@
 use crate::util::mix;
 use std::sync::atomic::{AtomicBool, AtomicI64, AtomicU32, AtomicU64, Ordering::Relaxed};
 
-pub const MAX_IDS: usize = 1 << 14;
+// (Miri keeps per-byte race-detector state for every allocation it touches: small ledgers there)
+pub const MAX_IDS: usize = if cfg!(miri) { 96 } else { 1 << 14 };
 
 #[allow(clippy::declare_interior_mutable_const)]
 const Z32: AtomicU32 = AtomicU32::new(0);
